@@ -13,6 +13,7 @@ done
 for id in c04 c05 c09 c10 c17 c18 c19; do
   ./sched_build.sh $id || exit 1
 done
+go test ./lib/fp ./lib/lin || exit 1
 if [ -d litmus ]; then
   ./litmus.sh || exit 1
 fi
